@@ -98,6 +98,9 @@ func genCase(t *rapid.T) Case {
 		sites = ok
 	}
 	c.Edits = pickSites(t, sites, rapid.IntRange(0, 8).Draw(t, "nedits"))
+	if d == "mysql" {
+		c.Short = rapid.SampledFrom([]int{0, 0, 1, 2, 3}).Draw(t, "short")
+	}
 	if rapid.Bool().Draw(t, "permute") {
 		c.Perm = int64(rapid.IntRange(1, 1<<30).Draw(t, "perm"))
 	}
@@ -116,19 +119,22 @@ func mkCheck(col *ev.Collector) func(Case) error {
 		if len(c.Edits) == 0 {
 			col.Class(c.Dialect + "/null-relation")
 		}
+		if c.Short != 0 {
+			col.Class(fmt.Sprintf("mysql/charset-shorthand-%d", c.Short))
+		}
 		var tws []string
 		for _, tw := range c.Twins {
 			col.Class(c.Dialect + "/generated-name-twin/" + tw.Op)
 			tws = append(tws, tw.Index+":"+tw.Op)
 		}
-		if len(c.Edits) > 0 || c.Perm != 0 || len(c.Twins) > 0 {
-			col.NonTrivial(fmt.Sprintf("%s|%s|%s|%v|%s", c.Dialect, c.Level, strings.Join(ks, ","), c.Perm != 0, strings.Join(tws, ",")))
+		if len(c.Edits) > 0 || c.Perm != 0 || len(c.Twins) > 0 || c.Short != 0 {
+			col.NonTrivial(fmt.Sprintf("%s|%s|%s|%v|%s|%d", c.Dialect, c.Level, strings.Join(ks, ","), c.Perm != 0, strings.Join(tws, ","), c.Short))
 		}
 		sk := fmt.Sprintf("%s/%d-edits", c.Dialect, min(len(c.Edits), 3))
 		if len(c.Twins) > 0 {
 			sk += "/twins"
 		}
-		col.Sample(sk, Case{Dialect: c.Dialect, Edits: c.Edits, Perm: c.Perm, Level: c.Level, Twins: c.Twins})
+		col.Sample(sk, Case{Dialect: c.Dialect, Edits: c.Edits, Perm: c.Perm, Level: c.Level, Twins: c.Twins, Short: c.Short})
 		return err
 	}
 }
@@ -148,6 +154,23 @@ func TestCheck(t *testing.T) {
 			for _, perm := range []int64{0, 1, 2, 3} {
 				if !ev.Each(col, "exhaustive-single-edit", Case{Dialect: d, Base: base, Level: level, Perm: perm}, check, known) {
 					return
+				}
+			}
+			if d == "mysql" {
+				// the short ways of writing a column's character set on the desired side: alone, and under every single edit
+				for short := 1; short <= 3; short++ {
+					if !ev.Each(col, "exhaustive-single-edit", Case{Dialect: d, Base: base, Level: level, Short: short}, check, known) {
+						return
+					}
+					for _, s := range sites {
+						i++
+						if !col.Mine(i) {
+							continue
+						}
+						if !ev.Each(col, "exhaustive-single-edit", Case{Dialect: d, Base: base, Level: level, Edits: []EditRef{s.E}, Short: short}, check, known) {
+							return
+						}
+					}
 				}
 			}
 			for _, s := range sites {
